@@ -55,6 +55,13 @@ CHECKS = {
         note="Oracle is the program itself. A re-layout that does not lex to the identical token sequence is discarded and counted, never reported.",
         design="DESIGN.md §4 C10",
     ),
+    "C14": dict(
+        engine="ship",
+        technique="runtime monitoring: differential execution of the real CLI binary (three input modes) and of a native derivation of the playground entry point against the library pipeline with isolated arenas; sequence-versus-alone comparison for run independence",
+        text="Held on N generated programs (passing, statically rejected, ending in each runtime error, Stack overflow, commit/decommit-forcing): the `naija` binary prints byte for byte what the library pipeline computes and exits 0 exactly on success, in file, --eval and stdin mode, and never executes a rejected text; and on M back-to-back sequences through the playground wiring every element equals its result in a fresh process and a repeated run equals the first.",
+        note="The playground is a native derivation of wasm/src/lib.rs (build.rs drops the three wasm-only lines and shims ansi_to_html::convert to the identity); wasm-specific memory and stack code is not executed.",
+        design="DESIGN.md §4 C14",
+    ),
     "C04": dict(
         engine="sem",
         technique="runtime monitoring: generated scope-heavy programs with site-unique values against a reference interpreter with real lexical closures",
